@@ -224,6 +224,167 @@ def contiguous_groupings(n):
     return out
 
 
+# ----------------------------------------------------------------------------- operation histories (StoreOps.tla)
+def canon_rows(n):
+    """(time, endtime, v) of every row of `mapped`, in order: row id = position + 1."""
+    return [(r[0], r[1], 3 * r[2] + 1) for c in src_chunks(n) for r in c["rows"]]
+
+
+def project(d, n):
+    """Image of one data directory in the vocabulary of StoreOps.tla (read back with the real backend)."""
+    sdir = find_dir(d, "mapped")
+    if sdir is None:
+        return dict(present=False, edges=[], rows=[], md=[], comp="none", start=0, end=0, ended=False, exc=False)
+    be = strax.FileSytemBackend()
+    chunks = list(be.loader(sdir))
+    meta = be.get_metadata(sdir)
+    files = set(os.path.basename(x) for x in glob.glob(sdir + "/*"))
+    ids = {r: i + 1 for i, r in enumerate(canon_rows(n))}
+    rows = [[ids.get((int(r["time"]), int(strax.endtime(r)), int(r["v"])), 0) for r in c.data] for c in chunks]
+    edges = [int(c.start) for c in chunks] + [int(chunks[-1].end)]
+    md = [dict(i=m["chunk_i"], n=m["n"], s=m["start"], e=m["end"], nb=m["nbytes"], ft=m.get("first_time", -1), fe=m.get("first_endtime", -1),
+               lt=m.get("last_time", -1), le=m.get("last_endtime", -1), file=bool(m.get("filename") in files)) for m in meta["chunks"]]
+    return dict(present=True, edges=edges, rows=rows, md=md, comp=meta["compressor"], start=meta.get("start", -1), end=meta.get("end", -1),
+                ended="writing_ended" in meta, exc="exception" in meta)
+
+
+def gen_history(rng, n, length):
+    """A random applicable operation sequence (the abstract preconditions of StoreOps.tla decide applicability)."""
+    present = {"A": False, "B": False}
+    first = rng.choice("AB")
+    ops = [dict(op="make", a=first, b=first, c="same", rc=False)]
+    present[first] = True
+    while len(ops) < length:
+        kind = rng.choice(["copy", "rewrite", "rewrite", "load"])
+        have = [k for k in "AB" if present[k]]
+        a = rng.choice(have)
+        other = "B" if a == "A" else "A"
+        c = rng.choice(["same"] + COMPRESSORS)
+        tr = rng.choice([None, 1, 2, 4, 100])
+        if kind == "copy":
+            if present[other]:
+                continue
+            ops.append(dict(op="copy", a=a, b=other, c=c, rc=tr is not None, tr=tr))
+            present[other] = True
+        elif kind == "rewrite":
+            inplace = present[other] or rng.random() < 0.5
+            ops.append(dict(op="rewrite", a=a, b=a if inplace else other, c=c, rc=tr is not None, tr=tr,
+                            par=rng.choice([False, "thread"])))
+            present[a if inplace else other] = True
+        else:
+            ops.append(dict(op="load", a=a, b=a, c="same", rc=False, rol=rng.choice([None, 1, 4]),
+                            proc=rng.choice(["single_thread", "threaded_mailbox"])))
+    return ops
+
+
+def run_history(arg):
+    n, ops = arg
+    import contextlib
+    import io
+    dirs = {"A": tempfile.mkdtemp(prefix="verif_c16A_"), "B": tempfile.mkdtemp(prefix="verif_c16B_")}
+    events = []
+    ids = {r: i + 1 for i, r in enumerate(canon_rows(n))}
+    err = None
+    try:
+        for op in ops:
+            ev = dict(op=op["op"], a=op["a"], b=op["b"], c=op["c"], rc=bool(op["rc"]), loaded=[], contig=True)
+            try:
+                with warnings.catch_warnings(), contextlib.redirect_stdout(io.StringIO()), contextlib.redirect_stderr(io.StringIO()):
+                    warnings.simplefilter("ignore")
+                    mb = None if op.get("tr") is None else (op["tr"] * H.ROWDT.itemsize + 4) * 1e-6
+                    if op["op"] == "make":
+                        ctx([dirs[op["a"]]], n).make("0", "mapped", progress_bar=False)
+                        shutil.rmtree(find_dir(dirs[op["a"]], "src"))        # only `mapped` is the subject
+                    elif op["op"] == "copy":
+                        st = ctx([dirs[op["a"]], dirs[op["b"]]], n)
+                        kw = dict(target_frontend_id=1, target_compressor=None if op["c"] == "same" else op["c"], rechunk=bool(op["rc"]))
+                        if op["rc"]:
+                            kw["rechunk_to_mb"] = mb
+                        st.copy_to_frontend("0", "mapped", **kw)
+                    elif op["op"] == "rewrite":
+                        sdir = find_dir(dirs[op["a"]], "mapped")
+                        replace = op["a"] == op["b"]
+                        strax.rechunker(source_directory=sdir, dest_directory=None if replace else dirs[op["b"]], replace=replace,
+                                        compressor=None if op["c"] == "same" else op["c"], target_size_mb=mb, rechunk=bool(op["rc"]),
+                                        progress_bar=True, parallel=op.get("par", False), max_workers=2, _timeout=120)
+                    else:
+                        st = ctx([dirs[op["a"]]], n, rechunk_on_load=op.get("rol") is not None,
+                                 source_mb=None if op.get("rol") is None else (op["rol"] * H.ROWDT.itemsize + 4) * 1e-6)
+                        chunks = list(st.get_iter("0", "mapped", processor=op["proc"], progress_bar=False))
+                        ev["loaded"] = [ids.get((int(r["time"]), int(strax.endtime(r)), int(r["v"])), 0) for c in chunks for r in c.data]
+                        ev["contig"] = all(a.end == b.start for a, b in zip(chunks, chunks[1:]))
+            except Exception as e:  # noqa
+                err = f"{op}: {type(e).__name__}: {e}"[:300]
+                break
+            ev["state"] = {k: project(dirs[k], n) for k in "AB"}
+            events.append(ev)
+        return dict(n=n, ops=ops, events=events, err=err)
+    finally:
+        for d in dirs.values():
+            shutil.rmtree(d, ignore_errors=True)
+
+
+def storeops_constants(n):
+    rows = canon_rows(n)
+    cs = src_chunks(n)
+    return dict(Rows=[dict(s=r[0], e=r[1]) for r in rows], Edges0=[cs[0]["s"]] + [c["e"] for c in cs], Half=int(strax.DEFAULT_CHUNK_SPLIT_NS // 2),
+                Comps=set(COMPRESSORS), DefaultComp="blosc", Locs={"A", "B"})
+
+
+def tla_consts(c, maxops):
+    rows = "<<" + ", ".join(f"[s |-> {r['s']}, e |-> {r['e']}]" for r in c["Rows"]) + ">>"
+    mc = (f"RowsDef == {rows}\nEdges0Def == {V.to_tla(tuple(c['Edges0']))}\nCompsDef == {V.to_tla(c['Comps'])}\nLocsDef == {V.to_tla(c['Locs'])}\n")
+    cfg = (f"CONSTANTS Half = {c['Half']} DefaultComp = \"{c['DefaultComp']}\" MaxOps = {maxops}\nCONSTANT Rows <- RowsDef\nCONSTANT Edges0 <- Edges0Def\n"
+           "CONSTANT Comps <- CompsDef\nCONSTANT Locs <- LocsDef\n")
+    return mc, cfg
+
+
+def histories(chk):
+    """spec/StoreOps.tla model-checked; random applicable operation histories executed on real storage and validated
+    by TLC against it (StoreOpsTrace.tla)."""
+    import random
+    quick = chk.tier == "quick"
+    n = 2
+    c = storeops_constants(n)
+    mc, cfg = tla_consts(dict(c, Comps={"blosc", "zstd"}), 3 if quick else 4)
+    d = V.stage_spec(["StoreOps"], {"MC.tla": "---- MODULE MC ----\nEXTENDS StoreOps\n" + mc + "====\n",
+                                    "MC.cfg": "SPECIFICATION Spec\n" + cfg + "INVARIANT AllCopiesComplete\nPROPERTY SourceIntact\nCHECK_DEADLOCK FALSE\n"})
+    r = V.run_tlc(d, "MC", "MC.cfg", workers=4, timeout=1800)
+    chk.add_tlc(r, "StoreOps.tla: all operation histories of the bound (AllCopiesComplete, SourceIntact)")
+    V.tlc_must_finish(r, "StoreOps")
+    if r.violated:
+        raise V.MachineryError(f"StoreOps.tla violates {r.violated}")
+    rng = random.Random(chk.seed)
+    hs = [(n, gen_history(rng, n, rng.choice([3, 4, 5]))) for _ in range(24 if quick else 200)]
+    res = V.pmap(run_history, hs, procs=8)
+    mc, cfg = tla_consts(c, 10)
+    d = V.stage_spec(["StoreOps", "StoreOpsTrace"], {"MCT.tla": "---- MODULE MCT ----\nEXTENDS StoreOpsTrace\n" + mc + "====\n",
+                                                     "MCT.cfg": "SPECIFICATION TraceSpec\n" + cfg + "INVARIANT Progress\nINVARIANT AllCopiesComplete\n"
+                                                                "POSTCONDITION AllAccepted\nCHECK_DEADLOCK FALSE\n"})
+    with open(os.path.join(d, "traces.json"), "w") as f:
+        json.dump([dict(itemsize=int(H.ROWDT.itemsize), events=rr["events"]) for rr in res], f)
+    r = V.run_tlc(d, "MCT", "MCT.cfg", workers=1, timeout=1800, env={"TRACE_FILE": os.path.join(d, "traces.json")})
+    chk.add_tlc(r, f"trace validation of {len(res)} real operation histories against StoreOps.tla")
+    rej = {int(a): int(b) for a, b in re.findall(r'REJECTED trace", (\d+), "at event", (\d+)', r.out)}
+    if not r.ok and not rej:
+        raise V.MachineryError("StoreOpsTrace failed to run: " + r.out[-2000:])
+    for i, rr in enumerate(res, 1):
+        chk.case(key=json.dumps(rr["ops"], sort_keys=True), nontrivial=len(rr["ops"]) > 2)
+        ops_txt = " ; ".join(f"{o['op']}({o['a']}->{o['b']},{o['c']},tr={o.get('tr')})" for o in rr["ops"])
+        if rr["err"]:
+            chk.violation(f"C16:history:raises:{rr['err'].split(':')[-2].strip() if ':' in rr['err'] else rr['err']}:{ops_txt}",
+                          f"operation history {ops_txt} raised: {rr['err']}", dict(history=[rr["n"], rr["ops"]]))
+        elif i in rej:
+            ev = rej[i]
+            bad = rr["events"][ev - 1] if 0 < ev <= len(rr["events"]) else None
+            chk.violation(f"C16:history:rejected:{ops_txt}:event{ev}",
+                          f"real operation history {ops_txt} is not a behaviour of spec/StoreOps.tla: rejected at event {ev}: {json.dumps(bad)[:1500]}",
+                          dict(history=[rr["n"], rr["ops"]]))
+        else:
+            chk.traces += 1
+    chk.extra["operation_histories"] = len(res)
+
+
 def run(chk):
     V.quiet_threads()
     quick = chk.tier == "quick"
@@ -279,6 +440,7 @@ def run(chk):
         chk.violation(f"C16:data-not-preserved:{rr['op']}", f"{rr['op']}: source {t['inp']} destination {t['out']} md {t['md']} "
                       f"same={t['same']} source intact={t['srcok']}", dict(work=work[idx[k - 1]]))
     chk.traces += len(traces)
+    histories(chk)
     chk.sample(dict(op=res[0]["op"], observation=res[0]["o"]))
     chk.sample(dict(op=res[-1]["op"], observation=res[-1]["o"]))
     chk.rule = ("operation = copy_to_frontend x {keep, blosc, zstd, lz4, bz2} x {no rechunk, target 1 / 4 / 100 rows}; stand-alone rechunker x "
@@ -290,6 +452,13 @@ def run(chk):
 
 def replay(chk, path):
     rp = json.load(open(path))["replay"]
+    if "history" in rp:
+        rr = run_history((rp["history"][0], rp["history"][1]))
+        for e in rr["events"]:
+            print(json.dumps(e)[:600])
+        print("error:", rr["err"])
+        print("(validate with bin/check C16: the history is judged by TLC against StoreOps.tla)")
+        return 1 if rr["err"] else 0
     w = rp["work"]
     rr = dispatch((w[0], tuple(tuple(x) if isinstance(x, list) and w[0] != "perchunk" else x for x in w[1])))
     print(rr)
